@@ -56,6 +56,7 @@ class FnSpec:
         self.modifies = list(kw.get('modifies') or [])
         self.raises = kw.get('raises')          # None: may not raise (beyond declared); list of allowed types
         self.ensures_raises = _clauses(kw.get('ensures_raises'), self.props)
+        self.raises_modifies = list(kw.get('raises_modifies') or [])   # what a rejected call may still have changed
         self.inline = kw.get('inline', False)   # no contract of its own: callers execute the body
         self.trusted = kw.get('trusted', False)  # contract assumed, body not verified (listed in evidence)
         self.splits = kw.get('splits') or {}    # name -> list of alternatives (polymorphic fields / optional params)
